@@ -328,10 +328,18 @@ def setStorage (cid : Nat) (m : Mod) (s : State) (live : List Live) : State × L
     | (s', live', none) => ({ s' with dstor := m.key }, live', none)
     | (s', live', some r) => (s', live', some r)
 
-/-- restoreDefaultStorage (caddy.go, since fix e4caa40): make the storage of the configuration that
-    is running the process default again, or caddy's DefaultStorage if none is running. Called
-    wherever a configuration that was provisioned turns out not to be used. -/
-def restoreStorage (s : State) : State :=
+/-- the rollback of the process-wide defaults, wherever a configuration that was provisioned turns
+    out not to be used: restoreDefaultStorage (caddy.go, since fix e4caa40) — the storage of the
+    configuration that is running, or caddy's DefaultStorage if none is — and
+    Logging.restoreDefaultLogger (logging.go) — the default logger that was in place before this
+    configuration's logging was set up (`prev`). -/
+def restoreStorage (prev : Nat) (s : State) : State :=
+  match s.cur with
+  | some ctx => { s with dstor := ctx.stor, dlogger := prev }
+  | none => { s with dstor := 0, dlogger := prev }
+
+/-- the rollback BEFORE the default-logger fix: the storage only -/
+def restoreStorageL (s : State) : State :=
   match s.cur with
   | some ctx => { s with dstor := ctx.stor }
   | none => { s with dstor := 0 }
@@ -430,13 +438,13 @@ def unsyncedStop (c : Option Ctx) (s : State) : State :=
     is empty; openLogs registers closeLogs on a copy. On error the deferred function cancels. -/
 def provisionContext (cid : Nat) (c : Cfg) (pp : List Nat) (s : State) : State × Option Ctx × Option Res :=
   match openLogs cid c.logs s with
-  | (s1, live1, wk, some r) => (restoreStorage (cancel cid (onCancelOnCopy [] 0) wk live1 s1), none, some r)
+  | (s1, live1, wk, some r) => (restoreStorage s.dlogger (cancel cid (onCancelOnCopy [] 0) wk live1 s1), none, some r)
   | (s1, live1, wk, none) =>
     match setStorage cid c.stor s1 live1 with
-    | (s1', live1', some r) => (restoreStorage (cancel cid (onCancelOnCopy [] 0) wk live1' s1'), none, some r)
+    | (s1', live1', some r) => (restoreStorage s.dlogger (cancel cid (onCancelOnCopy [] 0) wk live1' s1'), none, some r)
     | (s1', live1', none) =>
     match loadApps cid (order pp c.apps) s1' live1' with
-    | (s2, live2, some r) => (restoreStorage (cancel cid (onCancelOnCopy [] 0) wk live2 s2), none, some r)
+    | (s2, live2, some r) => (restoreStorage s.dlogger (cancel cid (onCancelOnCopy [] 0) wk live2 s2), none, some r)
     | (s2, live2, none) => (s2, some ⟨cid, c.apps, live2, wk, onCancelOnCopy [] 0, s2.dstor⟩, none)
 
 /-- finishSettingUp: load the config loader module (pseudo app 101) -/
@@ -454,12 +462,12 @@ def run (cid : Nat) (c : Cfg) (e : Env) (s : State) : State × Option Ctx × Res
   | (s1, none, none) => (s1, none, .errProvision)   -- unreachable
   | (s1, some ctx, none) =>
     -- ctx.cfg.Admin.provisionAdminRouters(ctx) (caddy.go:427-432): on error cancel, nothing started
-    if e.adm = 2 then (restoreStorage (cancel cid ctx.cbs ctx.wkeys ctx.live s1), none, .errAdmin) else
+    if e.adm = 2 then (restoreStorage s.dlogger (cancel cid ctx.cbs ctx.wkeys ctx.live s1), none, .errAdmin) else
     match startApps cid e.blocked [] (order e.ps ctx.apps) s1 with
-    | (s2, false) => (restoreStorage (cancel cid ctx.cbs ctx.wkeys ctx.live s2), none, .errStart)
+    | (s2, false) => (restoreStorage s.dlogger (cancel cid ctx.cbs ctx.wkeys ctx.live s2), none, .errStart)
     | (s2, true) =>
       match finishSettingUp ctx e.post s2 with
-      | (s3, ctx', false) => (restoreStorage (unsyncedStop (some ctx') s3), none, .errPost)
+      | (s3, ctx', false) => (restoreStorage s.dlogger (unsyncedStop (some ctx') s3), none, .errPost)
       | (s3, ctx', true) => (s3, some ctx', .ok)
 
 /-! #### the same BEFORE fix e4caa40 (kept for the non-vacuity theorem `default_storage_old_code_fails`):
@@ -495,6 +503,39 @@ def validateOld (c : Cfg) (e : Env) (s : State) : State × Res :=
   | (s1, _, some r) => (s1, r)
   | (s1, none, none) => (s1, .errProvision)
   | (s1, some ctx, none) => (cancel ctx.cid ctx.cbs ctx.wkeys ctx.live s1, .ok)
+
+/-! #### the same BEFORE the default-logger fix (kept for `default_logger_old_code_fails`): the
+rollbacks put the default storage back but not the default logger -/
+
+def provisionContextL (cid : Nat) (c : Cfg) (pp : List Nat) (s : State) : State × Option Ctx × Option Res :=
+  match openLogs cid c.logs s with
+  | (s1, live1, wk, some r) => (restoreStorageL (cancel cid (onCancelOnCopy [] 0) wk live1 s1), none, some r)
+  | (s1, live1, wk, none) =>
+    match setStorage cid c.stor s1 live1 with
+    | (s1', live1', some r) => (restoreStorageL (cancel cid (onCancelOnCopy [] 0) wk live1' s1'), none, some r)
+    | (s1', live1', none) =>
+    match loadApps cid (order pp c.apps) s1' live1' with
+    | (s2, live2, some r) => (restoreStorageL (cancel cid (onCancelOnCopy [] 0) wk live2 s2), none, some r)
+    | (s2, live2, none) => (s2, some ⟨cid, c.apps, live2, wk, onCancelOnCopy [] 0, s2.dstor⟩, none)
+
+def runL (cid : Nat) (c : Cfg) (e : Env) (s : State) : State × Option Ctx × Res :=
+  match provisionContextL cid c e.pp s with
+  | (s1, _, some r) => (s1, none, r)
+  | (s1, none, none) => (s1, none, .errProvision)
+  | (s1, some ctx, none) =>
+    if e.adm = 2 then (restoreStorageL (cancel cid ctx.cbs ctx.wkeys ctx.live s1), none, .errAdmin) else
+    match startApps cid e.blocked [] (order e.ps ctx.apps) s1 with
+    | (s2, false) => (restoreStorageL (cancel cid ctx.cbs ctx.wkeys ctx.live s2), none, .errStart)
+    | (s2, true) =>
+      match finishSettingUp ctx e.post s2 with
+      | (s3, ctx', false) => (restoreStorageL (unsyncedStop (some ctx') s3), none, .errPost)
+      | (s3, ctx', true) => (s3, some ctx', .ok)
+
+def validateL (c : Cfg) (e : Env) (s : State) : State × Res :=
+  match provisionContextL s.next c e.pp s with
+  | (s1, _, some r) => (s1, r)
+  | (s1, none, none) => (s1, .errProvision)
+  | (s1, some ctx, none) => (restoreStorageL (cancel ctx.cid ctx.cbs ctx.wkeys ctx.live s1), .ok)
 
 /-- unsyncedDecodeAndRun (caddy.go:325-398) -/
 def decodeAndRun (cid : Nat) (c : Cfg) (e : Env) (s : State) : State × Res :=
@@ -546,7 +587,7 @@ def validate (c : Cfg) (e : Env) (s : State) : State × Res :=
   match provisionContext s.next c e.pp s with
   | (s1, _, some r) => (s1, r)
   | (s1, none, none) => (s1, .errProvision)
-  | (s1, some ctx, none) => (restoreStorage (cancel ctx.cid ctx.cbs ctx.wkeys ctx.live s1), .ok)
+  | (s1, some ctx, none) => (restoreStorage s.dlogger (cancel ctx.cid ctx.cbs ctx.wkeys ctx.live s1), .ok)
 
 def bump (p : State × Res) : State × Res := ({ p.1 with next := p.1.next + 1 }, p.2)
 
